@@ -9,7 +9,8 @@
    The hash classes take any object with a get_symbol method as symbol table; the
    model takes the function [getsym].  The stream is the file image [img].
    No proofs here. *)
-From PV Require Import Base.Fmt Base.Outcome Base.Prim Gen.ElfLayouts Model.C03Sections.
+From PV Require Import Base.Fmt Base.Outcome Base.Prim Base.Enum Gen.ElfLayouts Gen.C09Hash Model.C03Sections.
+Local Open Scope list_scope.
 Local Open Scope Z_scope.
 
 (* list[i] for the non-negative indices the tables produce; IndexError beyond the end *)
@@ -44,7 +45,21 @@ Definition elf_hash_unrepaired (name : list Z) : Z := fold_left elf_hash_step_un
 Record elf_hash_params := mkEHP {
   eh_nbuckets : Z; eh_nchains : Z; eh_buckets : list Z; eh_chains : list Z }.
 
+(* structs.py _create_elf_hash (regenerated: Gen/C09Hash.v holds the machines and the wide layout):
+     if self.elfclass == 64 and self.e_machine in ('EM_ALPHA', 'EM_S390'): hash_word = self.Elf_word64
+     else: hash_word = self.Elf_word
+   self.e_machine is the NAME the header's e_machine decodes to (or the raw number) *)
+Definition machine_key (v : Z) : string :=
+  match dict_get E005_e_machine v with Some n => n | None => "<raw>"%string end.
+Definition hash_wide (is64 : bool) (machine : Z) : bool :=
+  existsb (fun p => (fst p =? machine_key machine)%string && Bool.eqb (snd p) is64) gen_hash_wide.
+Definition Elf_Hash_layout (wide le is64 : bool) : layout :=
+  if wide then gen_Elf_Hash_wide le else gen_Elf_Hash le is64.
+
 (* ELFHashTable.__init__: self.params = struct_parse(self.elffile.structs.Elf_Hash, stream, start_offset) *)
+Definition elf_hash_init_w (wide le is64 : bool) (img : list Z) (start_offset : Z) : res elf_hash_params :=
+  do p <- struct_parse_at (Elf_Hash_layout wide le is64) img start_offset;
+  Ok (mkEHP (rec_z p "nbuckets"%string) (rec_z p "nchains"%string) (rec_list p "buckets"%string) (rec_list p "chains"%string)).
 Definition elf_hash_init (le is64 : bool) (img : list Z) (start_offset : Z) : res elf_hash_params :=
   do p <- struct_parse_at (gen_Elf_Hash le is64) img start_offset;
   Ok (mkEHP (rec_z p "nbuckets"%string) (rec_z p "nchains"%string) (rec_list p "buckets"%string) (rec_list p "chains"%string)).
@@ -248,3 +263,14 @@ Definition gnu_hash_number_of_symbols_cur (le : bool) (img : list Z) (fuel : nat
   do max_idx <- py_max (gh_buckets P);
   if max_idx <? gh_symoffset P then Ok (gh_symoffset P)
   else gnu_count_walk_cur le img fuel (gh_chain_pos P + (max_idx - gh_symoffset P) * gnu_wordsize) max_idx.
+
+(* ------------------------------------------------------------------ the section classes of a file whose
+   header says e_machine = [machine]: only the SysV table's entry width depends on it; GNUHashTable
+   reads 32-bit words (Elf_word) on every machine *)
+Definition elf_hash_section_get_symbol_m (machine : Z) (img : list Z) (c : symcfg) (hash_off : Z) (name : list Z)
+  : res (option symbol) :=
+  do P <- elf_hash_init_w (hash_wide (c_is64 c) machine) (c_le c) (c_is64 c) img hash_off;
+  elf_hash_get_symbol (get_symbol img c) P name.
+Definition elf_hash_section_number_of_symbols_m (machine : Z) (img : list Z) (c : symcfg) (hash_off : Z) : res Z :=
+  do P <- elf_hash_init_w (hash_wide (c_is64 c) machine) (c_le c) (c_is64 c) img hash_off;
+  Ok (elf_hash_number_of_symbols P).
